@@ -289,6 +289,10 @@ pub struct C11Case {
     pub kind: PerturbKind,
     pub entry: EntryKind,
     pub twin: bool,
+    /// selector of the perturbed datum's type among all menu types (for the uninit flag: among the
+    /// types that are not `Copy`); `None`: the type the history draws
+    #[serde(default)]
+    pub force: Option<u16>,
 }
 
 fn c11_strategy() -> impl Strategy<Value = C11Case> {
@@ -308,8 +312,9 @@ fn c11_strategy() -> impl Strategy<Value = C11Case> {
         ],
         prop_oneof![Just(EntryKind::Override), Just(EntryKind::CopyDatum), Just(EntryKind::Dynamic)],
         prop::bool::weighted(0.4),
+        prop::option::weighted(0.5, any::<u16>()),
     )
-        .prop_map(|(history, target, kind, entry, twin)| C11Case { history, target, kind, entry, twin })
+        .prop_map(|(history, target, kind, entry, twin, force)| C11Case { history, target, kind, entry, twin, force })
 }
 
 enum C11Outcome {
@@ -328,7 +333,11 @@ fn c11_check(ext: &Externs, dir: &std::path::Path, tag: &str, case: &C11Case) ->
         return C11Outcome::Skipped("skipped_no_datum");
     }
     let ordinal = pick(case.target, plain.additions);
-    let mk = |apply: bool| Ext { perturb: Some((ordinal, case.kind, case.entry)), apply_perturbation: apply, markers: BTreeMap::new(), twin: case.twin };
+    let force_type = case.force.map(|sel| {
+        let pool: Vec<usize> = (0..vtypes::MENU.len()).filter(|&i| case.kind != PerturbKind::UninitNonCopy || !vtypes::MENU[i].copy).collect();
+        pool[pick(sel, pool.len())]
+    });
+    let mk = |apply: bool| Ext { perturb: Some((ordinal, case.kind, case.entry)), apply_perturbation: apply, markers: BTreeMap::new(), twin: case.twin, force_type };
     let fragsel = case.history.fragsel;
     let (control, control_text) = match module_text(&case.history, &mk(false), fragsel) {
         Some(x) => x,
@@ -483,7 +492,7 @@ fn c14_ext(case: &C14Case) -> Option<Ext> {
             markers.insert(pick(*sel, plain.additions), *m as usize);
         }
     }
-    Some(Ext { perturb: None, apply_perturbation: false, markers, twin: false })
+    Some(Ext { perturb: None, apply_perturbation: false, markers, twin: false, force_type: None })
 }
 
 const PROBE_PRELUDE: &str = r#"#![allow(dead_code, unused_imports, unused_variables, unused_mut, non_camel_case_types)]
